@@ -113,10 +113,11 @@ func determOnce(what string, in Obj, rep int) (obs J) {
 		calls, _ := res["calls"].([]any)
 		keys := make([]string, len(calls))
 		for i, call := range calls {
-			keys[i] = callKey(cwf.MustParse(marshal(call)))
+			// the whole result of every callback: decision, reasons AND the error entries with their messages
+			keys[i] = callKey(cwf.MustParse(marshal(call))) + " errors " + cwf.Canon(call.(Obj)["errs"])
 		}
 		sort.Strings(keys)
-		return observation(fmt.Sprint(res["ret"]), strings.Join(keys, "\n"))
+		return observation(fmt.Sprint(res["ret"]), fmt.Sprint(res["msg"]), strings.Join(keys, "\n"))
 	case "policy_json":
 		var p cedar.Policy
 		if err := p.UnmarshalJSON([]byte(must(cwf.JToStr(in["json"])))); err != nil {
@@ -257,6 +258,28 @@ func driveDeterm(seed int64, n int, params map[string]string) []Obj {
 				Obj{"id": "rn", "policy": cwf.PolicyToJ(mk(ast.NodeTypeEquals{BinaryNode: bin(ast.NodeTypeAccess{StrOpNode: ast.StrOpNode{Arg: ctxAttr("r"), Value: "n"}}, ctxAttr("n"))}, ast.EffectForbid))},
 				Obj{"id": "g", "policy": cwf.PolicyToJ(g.policy(2))}}
 			add("batch", Obj{"policies": pols, "template": tmpl, "vars": vars})
+			// two variables with equally long value lists, policies that fail on one of them and are decided by the
+			// other: the order in which the variables are bound must not show in the results
+			tmpl2 := cwf.EnvToJ(e).(Obj)
+			tmpl2["p"], tmpl2["r"] = unk("x"), unk("y")
+			vars2 := []any{Obj{"key": "x", "values": []any{cwf.ValueToJ(types.NewEntityUID("U", "a")), cwf.ValueToJ(types.NewEntityUID("U", "nosuch"))}},
+				Obj{"key": "y", "values": []any{cwf.ValueToJ(types.NewEntityUID("G", "g")), cwf.ValueToJ(types.NewEntityUID("G", "zz"))}}}
+			pv, rv := ast.NodeTypeVariable{Name: "principal"}, ast.NodeTypeVariable{Name: "resource"}
+			two := func(a, b ast.IsNode) *ast.Policy {
+				return &ast.Policy{Effect: ast.EffectPermit, Principal: ast.ScopeTypeAll{}, Action: ast.ScopeTypeAll{}, Resource: ast.ScopeTypeAll{},
+					Conditions: []ast.ConditionType{{Condition: ast.ConditionWhen, Body: a}, {Condition: ast.ConditionWhen, Body: b}}}
+			}
+			acc := func(x ast.IsNode, a string) ast.IsNode { return ast.NodeTypeAccess{StrOpNode: ast.StrOpNode{Arg: x, Value: types.String(a)}} }
+			pols2 := []any{
+				Obj{"id": "e1", "policy": cwf.PolicyToJ(two(acc(pv, "nosuch"), ast.NodeTypeEquals{BinaryNode: bin(rv, val(types.NewEntityUID("G", "g")))}))},
+				Obj{"id": "e2", "policy": cwf.PolicyToJ(two(ast.NodeTypeEquals{BinaryNode: bin(rv, val(types.NewEntityUID("G", "g")))}, acc(pv, "nosuch")))},
+				Obj{"id": "e3", "policy": cwf.PolicyToJ(two(acc(rv, "nosuch"), ast.NodeTypeEquals{BinaryNode: bin(pv, val(types.NewEntityUID("U", "a")))}))},
+				Obj{"id": "e4", "policy": cwf.PolicyToJ(two(val(types.String("not a bool")), acc(pv, "k")))}}
+			add("batch", Obj{"policies": pols2, "template": tmpl2, "vars": vars2})
+			// unbound and unused variables: which one the error names
+			add("batch", Obj{"policies": pols2, "template": tmpl2, "vars": []any{}})
+			tmpl3 := cwf.EnvToJ(e).(Obj)
+			add("batch", Obj{"policies": pols2, "template": tmpl3, "vars": vars2})
 		case 9: // `in` / containsAll over sets whose members fail in different ways: which failure is reported?
 			bad := types.NewSet(types.Long(int64(i)), types.String("a"), types.Boolean(true), types.NewRecord(types.RecordMap{"k": types.Long(1)}))
 			bodies := []ast.IsNode{
@@ -273,6 +296,24 @@ func driveDeterm(seed int64, n int, params map[string]string) []Obj {
 				order = append(order, id)
 			}
 			add("authz", Obj{"policies": pols, "order": order, "env": cwf.EnvToJ(g.env())})
+			// the same policies under a request whose principal was left unspecified (the zero EntityUID), with tag
+			// operands that are not constants: the messages must not depend on which compiled copy is asked
+			zenv := cwf.EnvToJ(g.env()).(Obj)
+			zenv["p"] = cwf.ValueToJ(types.EntityUID{})
+			ctxv := ast.NodeTypeVariable{Name: "context"}
+			tagExprs := []ast.IsNode{val(types.String("a")),
+				ast.NodeTypeIfThenElse{If: ast.NodeTypeAccess{StrOpNode: ast.StrOpNode{Arg: ctxv, Value: "b"}}, Then: val(types.String("a")), Else: val(types.String("b"))},
+				ast.NodeTypeAccess{StrOpNode: ast.StrOpNode{Arg: ast.NodeTypeAccess{StrOpNode: ast.StrOpNode{Arg: ctxv, Value: "r"}}, Value: "s"}}}
+			zp, zo := []any{}, []any{}
+			for k, te := range tagExprs {
+				id := fmt.Sprintf("z%d", k)
+				p := &ast.Policy{Effect: ast.EffectPermit, Principal: ast.ScopeTypeAll{}, Action: ast.ScopeTypeAll{}, Resource: ast.ScopeTypeAll{},
+					Conditions: []ast.ConditionType{{Condition: ast.ConditionWhen,
+						Body: ast.NodeTypeEquals{BinaryNode: bin(ast.NodeTypeGetTag{BinaryNode: bin(ast.NodeTypeVariable{Name: "principal"}, te)}, val(types.Long(1)))}}}}
+				zp = append(zp, Obj{"id": id, "policy": cwf.PolicyToJ(p)})
+				zo = append(zo, id)
+			}
+			add("authz", Obj{"policies": zp, "order": zo, "env": zenv})
 		case 10: // schemas with several declarations of every kind in several namespaces
 			txt := g.schemaText()
 			if i%2 == 0 {
